@@ -1,9 +1,9 @@
 package e2e
 
 import (
-	"strings"
 	"fmt"
 	"os"
+	"strings"
 	"testing"
 
 	"github.com/relex/gotils/logger"
@@ -123,6 +123,49 @@ func genBacklogScenario(t *rapid.T) Scenario {
 	return sc
 }
 
+// genDrainCycleScenario: one key set, one output, a disk quota that holds any single burst but not all of them together.
+// The client sends 3-4 bursts of one-record chunks with long pauses in between; per burst the upstream first takes the
+// chunks without acknowledging any (they pile up in memory and on disk), then - after the client's ACK time-out and
+// reconnection - acknowledges exactly that burst, and resets when the first chunk of the next burst arrives. When the
+// server's log shows that every burst had been acknowledged before the next one was sent, the queue directory was empty
+// at the start of every burst and no burst alone fills the quota: not a single chunk may be discarded.
+func genDrainCycleScenario(t *rapid.T) Scenario {
+	var sc Scenario
+	sc.Family = "drain-cycles"
+	sc.Modes = []string{rapid.SampledFrom([]string{"Forward", "PackedForward", "CompressedPackedForward"}).Draw(t, "mode")}
+	sc.MemWindow = 2
+	sc.ChunkBytes = 300
+	sc.BatchLogs = rapid.SampledFrom([]int{2, 8}).Draw(t, "batchLogs")
+	var gen Generation
+	var cs ConnSpec
+	var ups []vh.UpstreamAttempt
+	cycles := rapid.IntRange(3, 4).Draw(t, "cycles")
+	maxBurst := 0
+	for cy := 0; cy < cycles; cy++ {
+		n := rapid.IntRange(24, 36).Draw(t, "burst")
+		maxBurst = max(maxBurst, n)
+		for i := 0; i < n; i++ {
+			r := Rec{App: 0, Host: 0, Size: rapid.IntRange(200, 260).Draw(t, "size")}
+			if i == 0 && cy > 0 {
+				r.Pause = 900 // ACK time-out 200 ms + reconnection + acknowledging the burst take far less
+			}
+			cs.Recs = append(cs.Recs, r)
+		}
+		ups = append(ups, vh.UpstreamAttempt{Kind: "neverack"})
+		if cy < cycles-1 {
+			ups = append(ups, vh.UpstreamAttempt{Kind: "reset", After: n})
+		}
+	}
+	cs.Close = "graceful"
+	gen.Conns = []ConnSpec{cs}
+	gen.Upstream = [][]vh.UpstreamAttempt{ups}
+	gen.Down = []bool{false}
+	gen.StopAfter = 1200
+	sc.QuotaChunks = maxBurst + 6
+	sc.Gens = append(sc.Gens, gen, Generation{StopAfter: 1500, Upstream: [][]vh.UpstreamAttempt{nil}, Down: []bool{false}})
+	return sc
+}
+
 // genBlockedWriteScenario: an upstream that accepts the connection and then never reads, and more data for one key set
 // than the socket buffers of a loopback connection hold (about 4 MB): the client's write blocks in the middle of a chunk.
 // The stop arrives while it is blocked (or after the send deadline has passed and the client is retrying).
@@ -165,6 +208,9 @@ func genBlockedWriteScenario(t *rapid.T) Scenario {
 func genScenario(t *rapid.T, focus string) Scenario {
 	if (focus == "C18" || focus == "C01") && rapid.IntRange(0, 7).Draw(t, "blocked") == 0 {
 		return genBlockedWriteScenario(t)
+	}
+	if (focus == "C01" || focus == "C19") && rapid.IntRange(0, 9).Draw(t, "cycles") == 0 {
+		return genDrainCycleScenario(t)
 	}
 	if rapid.IntRange(0, 3).Draw(t, "family") == 0 {
 		return genBacklogScenario(t)
@@ -271,6 +317,8 @@ func classify(sc Scenario, o *Outcome) (bool, []string) {
 	add(down, "upstream-down")
 	add(mid, "stop-mid-traffic")
 	add(sc.Family == "backlog", "backlog-being-worked-off-at-stop(family)")
+	add(sc.Family == "drain-cycles", "drain-cycles(family)")
+	add(sc.Family == "drain-cycles" && o.DrainedBetweenBursts(), "drain-cycles:every-burst-acknowledged-before-the-next(no-overflow-possible)")
 	add(strings.HasPrefix(sc.Family, "blocked-write"), "upstream-never-reads-and-more-data-than-the-socket-buffers(family)")
 	add(sc.Family == "blocked-write-recovery", "write-blocks-while-a-leftover-is-re-sent(recovery stage)")
 	if strings.HasPrefix(sc.Family, "blocked-write") && len(o.Stops) > 0 {
